@@ -374,6 +374,16 @@ func (res *Result) parseResponse(data []byte, base int) (*Response, error) {
 // URL items), the section table and the raw section contents, recomputing the
 // trailing length.  It is used to insert / reorder / drop sections consistently.
 func Rebuild(version string, prefix []byte, names []string, data [][]byte) []byte {
+	lens := make([]uint64, len(data))
+	for i, d := range data {
+		lens[i] = uint64(len(d))
+	}
+	return RebuildLens(version, prefix, names, lens, data)
+}
+
+// RebuildLens is Rebuild with the section-table lengths given explicitly (they may
+// lie about the data), everything else consistent.
+func RebuildLens(version string, prefix []byte, names []string, lens []uint64, data [][]byte) []byte {
 	top := uint64(5)
 	if version == "b1" {
 		top = 6
@@ -384,7 +394,7 @@ func Rebuild(version string, prefix []byte, names []string, data [][]byte) []byt
 	tbl = refcbor.AppendHead(tbl, refcbor.Array, uint64(2*len(names)))
 	for i, n := range names {
 		tbl = append(tbl, refcbor.EncText(n)...)
-		tbl = append(tbl, refcbor.EncUint(uint64(len(data[i])))...)
+		tbl = append(tbl, refcbor.EncUint(lens[i])...)
 	}
 	out = append(out, refcbor.EncBytes(tbl)...)
 	out = refcbor.AppendHead(out, refcbor.Array, uint64(len(names)))
@@ -427,5 +437,26 @@ func ReplaceHead(file []byte, f Field, v uint64) []byte {
 	out = append(out, file[:f.Off]...)
 	out = append(out, nh...)
 	out = append(out, file[f.Off+f.Len:]...)
+	return out
+}
+
+// EncodeIndex encodes an index section from entries (in the given order).
+func EncodeIndex(version string, entries []IndexEntry) []byte {
+	out := refcbor.AppendHead(nil, refcbor.Map, uint64(len(entries)))
+	for _, e := range entries {
+		out = append(out, refcbor.EncText(e.URL)...)
+		n := uint64(2 * len(e.Locations))
+		if version == "b1" {
+			n++
+		}
+		out = refcbor.AppendHead(out, refcbor.Array, n)
+		if version == "b1" {
+			out = append(out, refcbor.EncBytes(e.Variants)...)
+		}
+		for _, l := range e.Locations {
+			out = append(out, refcbor.EncUint(l.Offset)...)
+			out = append(out, refcbor.EncUint(l.Length)...)
+		}
+	}
 	return out
 }
